@@ -97,6 +97,14 @@ CHECKS["C18"] = dict(
     design_ref="5 C18", technique="Coq proof (order laws of byte-lexicographic comparison, parametric in the URL parser) + extracted-model differential correspondence",
     note="Url::parse/to_string are the oracle for validity and canonical form.")
 
+CHECKS["C10"] = dict(
+    text="Theorem (structural induction over value trees of arbitrary shape and depth): two values that differ only in secret payloads render identically under {:?} and {:#?} at every indentation, i.e. the output carries no information about any secret; "
+         "each secret type renders as Name([redacted]); table of compile-time facts (no Display/Deref/Into<String>, ==/Hash exactly under the feature, verifier not Clone). "
+         "Correspondence: exact Debug output of 14 real containers (client, 7 builders, authorization request, 3 responses, revocable token, Option/Vec/tuple nesting) vs the extracted shapes, "
+         "4-byte-window and identical-output checks on the real output for hostile secrets, 50 rustc probes.",
+    design_ref="5 C10", technique="Coq proof (non-interference by nested structural induction) + extracted-model differential correspondence on Debug output + rustc compile probes",
+    note="Derived Debug layout and PhantomData type-name text are modelled/oracle; public strings restricted to printable ASCII for exact comparison.")
+
 NOT_YET = {}
 
 
